@@ -1,7 +1,7 @@
 SPECIFICATION Spec
 CONSTANTS
   MaxPg = 8
-  MaxTx = 4
+  MaxTx = 3
   MaxReaders = 0
   NoFLSync = FALSE
   EnableCrash = TRUE
